@@ -255,41 +255,61 @@ pub proof fn lemma_rotl_val(w: nat, a: nat, k: nat)
         bv_sub(w, w, k) == w - k,
         bv_or(w, bv_shl(w, a, k), bv_shr(w, a, (w - k) as nat)) == rotl_spec(w, a, k),
 {
-    reveal(bv_sub); reveal(bv_or); reveal(bv_shl); reveal(bv_shr);
     lemma_lt_pow2(w);
-    lemma_enc_small(w, w as int - k as int);
+    assert(bv_sub(w, w, k) == w - k) by {
+        reveal(bv_sub);
+        lemma_enc_small(w, w as int - k as int);
+    }
+    let j = (w - k) as nat;
+    lemma_pow2_pos(k);
+    lemma_pow2_pos(j);
+    lemma_pow2_pos(w);
+    lemma2_to64();
+    if k == w {
+        assert(bv_shl(w, a, k) == 0) by { reveal(bv_shl); }
+        assert(bv_shr(w, a, 0) == a) by { reveal(bv_shr); assert(pow2(0) == 1); assert(a / 1 == a); }
+        assert(bv_or(w, 0, a) == a) by { reveal(bv_or); }
+        assert(a % 1 == 0);
+        assert(rotl_spec(w, a, k) == a) by { assert(pow2(0) == 1); assert((a % 1) * pow2(k) == 0) by (nonlinear_arith) requires a % 1 == 0; }
+    } else if k == 0 {
+        assert(bv_shl(w, a, 0) == a) by { reveal(bv_shl); assert(pow2(0) == 1); assert(a * 1 == a); lemma_small_mod(a, pow2(w)); }
+        assert(bv_shr(w, a, w) == 0) by { reveal(bv_shr); }
+        assert(bv_or(w, a, 0) == a) by { reveal(bv_or); }
+        assert(rotl_spec(w, a, 0) == a) by { lemma_small_mod(a, pow2(w)); lemma_small_div(a, pow2(w)); assert(pow2(0) == 1); }
+    } else {
+        lemma_rotl_mid(w, a, k);
+    }
+}
+
+pub proof fn lemma_rotl_mid(w: nat, a: nat, k: nat)
+    requires w >= 1, a < pow2(w), 0 < k < w,
+    ensures bv_or(w, bv_shl(w, a, k), bv_shr(w, a, (w - k) as nat)) == rotl_spec(w, a, k),
+{
     let j = (w - k) as nat;
     lemma_pow2_pos(k);
     lemma_pow2_pos(j);
     lemma_pow2_pos(w);
     lemma_pow2_adds(k, j);
-    assert(pow2(w) == pow2(k) * pow2(j));
-    // high part: a / 2^j < 2^k
+    let pk = pow2(k) as int;
+    let pj = pow2(j) as int;
+    assert(pow2(w) as int == pk * pj);
     let hi = a / pow2(j);
-    lemma_shr_facts(w, a, j);
-    assert(pow2(w) as int == pow2(k) as int * pow2(j) as int) by (nonlinear_arith) requires pow2(w) == pow2(k) * pow2(j);
-    lemma_div_by_multiple_is_strongly_ordered(a as int, pow2(w) as int, pow2(k) as int, pow2(j) as int);
-    lemma_div_multiples_vanish(pow2(k) as int, pow2(j) as int);
-    assert(hi < pow2(k));
-    // low part: (a * 2^k) % 2^w == (a % 2^j) * 2^k
     let lo = a % pow2(j);
-    lemma_truncate_middle(a as int, pow2(k) as int, pow2(j) as int);
-    assert((pow2(k) as int * a as int) % (pow2(k) as int * pow2(j) as int) == pow2(k) as int * (a as int % pow2(j) as int));
-    assert(a * pow2(k) == pow2(k) * a) by (nonlinear_arith);
-    assert(lo * pow2(k) == pow2(k) * lo) by (nonlinear_arith);
-    assert((a * pow2(k)) % pow2(w) == lo * pow2(k));
+    // hi < 2^k
+    lemma_fundamental_div_mod(a as int, pj);
+    lemma_mod_bound(a as int, pj);
+    lemma_div_by_multiple_is_strongly_ordered(a as int, pow2(w) as int, pk, pj);
+    lemma_div_multiples_vanish(pk, pj);
+    assert(hi < pow2(k));
+    // (a * 2^k) % 2^w == lo * 2^k
+    lemma_truncate_middle(a as int, pk, pj);
+    assert(a * pow2(k) == pk * a as int) by (nonlinear_arith) requires pk == pow2(k) as int;
+    assert(lo * pow2(k) == pk * lo as int) by (nonlinear_arith) requires pk == pow2(k) as int;
+    assert(((a * pow2(k)) as int) % (pow2(w) as int) == (lo * pow2(k)) as int);
+    assert(bv_shl(w, a, k) == lo * pow2(k)) by { reveal(bv_shl); }
+    assert(bv_shr(w, a, j) == hi) by { reveal(bv_shr); }
     lemma_or_disjoint(lo, k, hi);
-    if k == w {
-        lemma2_to64();
-        assert(j == 0);
-        assert(lo == 0) by { lemma_small_mod(0, 1); assert(a % 1 == 0); }
-        lemma_small_div(a, pow2(w));
-    }
-    if k == 0 {
-        lemma2_to64();
-        lemma_small_div(a, pow2(w));
-        lemma_small_mod(a, pow2(w));
-    }
+    assert(bv_or(w, lo * pow2(k), hi) == lo * pow2(k) + hi) by { reveal(bv_or); }
 }
 
 pub proof fn lemma_rotl_eval(e: Expression, s: Expression, wc: Constant, env: Env)
